@@ -125,7 +125,8 @@ def run_k(ctx, kres):
     bases = list(ex.map(lambda s: run_one(s[1], 1, 0, -1, "", lin_wanted(s[0])), scen))
     jobs = []
     for (name, ops, w), b in zip(scen, bases):
-        for n in sample_points(b["yields"].get(0, 0), cap): jobs.append((name, ops, w, n))
+        # the double-registration window of two searches meeting a handle-less object is a few callbacks wide: that scenario is explored at EVERY callback
+        for n in sample_points(b["yields"].get(0, 0), 10 ** 6 if name.startswith("find-fresh") else cap): jobs.append((name, ops, w, n))
     res = list(ex.map(lambda j: (j, run_one(j[1], 1, 0, -1, "0:%d:%d" % (j[3], j[2]), lin_wanted(j[0]))), jobs))
     seen = set(); unexplained = 0
     for (name, ops, w), b in zip(scen, bases): res.append(((name, ops, w, 0), b))
